@@ -18,7 +18,7 @@ CONSTANTS MaxOps,       \* operations per client
           Names         \* sequence of fresh handle names
 
 NoCfg == [cap |-> Unb, strat |-> "restart", stream |-> FALSE, tmo |-> 0, failto |-> FALSE, owning |-> FALSE,
-          sscr |-> <<>>, pscr |-> <<>>, fscr |-> <<>>, ty |-> "0"]
+          sscr |-> <<>>, pscr |-> <<>>, fscr |-> <<>>, ty |-> "0", items0 |-> 0, ended0 |-> FALSE, iscr |-> <<>>]
 Op(k, x, nh, s, d, to) == [op |-> k, h |-> x, nh |-> nh, a |-> "none", scr |-> s, cfg |-> NoCfg, d |-> d, to |-> to, ty |-> "0", nh2 |-> "none"]
 RegOp(k, x, T, nh, nh2) == [op |-> k, h |-> x, nh |-> nh, a |-> "none", scr |-> <<>>, cfg |-> NoCfg, d |-> 0, to |-> "none", ty |-> T, nh2 |-> nh2]
 
@@ -38,7 +38,8 @@ MCInit ==
        act = [a \in Actor |-> IF a = "a1"
                    THEN [UnbornActor EXCEPT !.pc = "starting", !.cap = cf.cap, !.strat = cf.strat, !.stream = cf.stream,
                                             !.tmo = cf.tmo, !.failto = cf.failto, !.sscr = cf.sscr, !.pscr = cf.pscr,
-                                            !.fscr = cf.fscr, !.inst = 1, !.ty = cf.ty, !.jh = IF cf.owning THEN "held" ELSE "none"]
+                                            !.fscr = cf.fscr, !.inst = 1, !.ty = cf.ty, !.iscr = cf.iscr,
+                                            !.sq = [ready |-> cf.items0, next |-> 1, ended |-> cf.ended0], !.jh = IF cf.owning THEN "held" ELSE "none"]
                    ELSE IF a \in DOMAIN ExtraActors
                    THEN LET ef == ExtraActors[a] IN
                         [UnbornActor EXCEPT !.pc = "starting", !.cap = ef.cap, !.strat = ef.strat, !.sscr = ef.sscr, !.pscr = ef.pscr,
@@ -111,6 +112,10 @@ Busy == \/ \E a \in Actor : LoopCanStep(a)
         \/ \E c \in Client : cli[c].stage # "idle" /\ ClientContEnabled(c)
         \/ \E i \in DOMAIN tmr : TimerCanStep(i)
 \* IdleClock: the clock moves only when nothing else can ("otherwise idle"); else timers race with tasks
+A_StreamItem  == \E a \in Actor : StreamItem(a) /\ Sch
+A_StreamDone  == \E a \in Actor : StreamDone(a) /\ Sch
+A_FinishedEnd == \E a \in Actor : FinishedEnd(a) /\ Sch
+A_StreamFeed  == \E c \in Client : CanOp(c) /\ \E o \in {[Op(k, "none", "none", <<>>, d, c) EXCEPT !.a = "a1"] : <<k, d>> \in (OpSet \cap {"feed", "end_stream"}) \X {1, 2}} : StreamFeed(c, o) /\ Sch
 A_Advance     == Advance /\ MinOf(Pending) <= Horizon /\ (IdleClock => ~Busy) /\ Sch
 A_Cancel      == /\ "cancel" \in Faults /\ nf < MaxFaults
                  /\ \E a \in Actor : Cancel(a)
@@ -123,6 +128,7 @@ MCNext ==
   \/ A_StartedBegin \/ A_ScriptStep \/ A_StartedEnd \/ A_Dequeue \/ A_MailboxClosed \/ A_StopTaken
   \/ A_PingHandled \/ A_HandleBegin \/ A_HandleEnd \/ A_TimeoutFire \/ A_RestartTaken \/ A_RestartStopped
   \/ A_RestartRefresh \/ A_RestartStarted \/ A_StoppedEnd \/ A_Notify \/ A_Exit \/ A_Advance \/ A_Cancel
+  \/ A_StreamItem \/ A_StreamDone \/ A_FinishedEnd \/ A_StreamFeed
   \/ A_TimerStart \/ A_TimerFire \/ A_TimerFlushed \/ A_TimerEnd
 
 MCSpec == MCInit /\ [][MCNext]_mcvars
@@ -151,7 +157,7 @@ Term_ExactlyK == (IdleClock /\ Quiescent) => \A i \in DOMAIN tmr :
 Y == Eff("yield", 0, "")
 Cfg(cap, strat, tmo, failto, owning, sscr, pscr) ==
   [cap |-> cap, strat |-> strat, stream |-> FALSE, tmo |-> tmo, failto |-> failto, owning |-> owning,
-   sscr |-> sscr, pscr |-> pscr, fscr |-> <<>>, ty |-> "0"]
+   sscr |-> sscr, pscr |-> pscr, fscr |-> <<>>, ty |-> "0", items0 |-> 0, ended0 |-> FALSE, iscr |-> <<>>]
 ScriptsCore == {<<>>, <<Y>>}
 ScriptsPlain == {<<>>}
 CfgsCore == {Cfg(cap, "restart", 0, FALSE, FALSE, <<<<>>>>, <<Y>>) : cap \in {Unb, 0, 1}}
@@ -170,6 +176,8 @@ ScriptsFail == {<<>>, <<Y>>, <<P>>}
 ScriptsSleep == {<<>>, <<Sl(1)>>, <<Sl(3)>>}
 ScriptsSleep2 == {<<>>, <<Sl(1)>>, <<Sl(2)>>, <<Sl(3)>>, <<Y, Sl(2)>>}
 NoExtra == <<>>
+StreamCfg(cap, n, ended, fs) == [Cfg(cap, "none", 0, FALSE, FALSE, <<<<>>>>, <<Y>>) EXCEPT !.stream = TRUE, !.items0 = n, !.ended0 = ended, !.fscr = fs, !.iscr = <<Y>>]
+CfgsStream == {StreamCfg(cap, n, e, <<Y>>) : cap \in {Unb, 1}, n \in {0, 2}, e \in {FALSE, TRUE}}
 CfgsSvc == {[Cfg(Unb, "restart", 0, FALSE, FALSE, <<<<>>>>, <<Y>>) EXCEPT !.ty = "1"]}
 NamesMore == <<"n1", "n2", "n3", "n4", "n5", "n6">>
 \* parent a1 with children a2 (unit bucket, also held by c2) and a3 (bc bucket, child of a2: depth 3)
